@@ -148,3 +148,95 @@ func TestC20_ArrayResults(t *testing.T) {
 	textwire.VerifReset()
 	c.ExhaustivePart("9 functions x 6 receivers x literal/variable")
 }
+
+// C20/reentrant: a registered function stays callable while another custom
+// function is running - a helper that renders a partial, or registers a
+// function lazily, from inside its body.
+
+type reentCase struct {
+	Scenario string `json:"scenario"`
+}
+
+func c20Reentrant(c *harness.Check, cs reentCase) string {
+	var failure string
+	pi := c.Guard("json", mustJSON(cs), func() {
+		textwire.VerifReset()
+		must := func(err error) {
+			if err != nil && failure == "" {
+				failure = "registration failed: " + err.Error()
+			}
+		}
+		must(textwire.RegisterStrFunc("zzUp", func(s string, a ...any) string { return "<" + s + ">" }))
+		must(textwire.RegisterIntFunc("zzTwice", func(i int, a ...any) int { return 2 * i }))
+		must(textwire.RegisterStrFunc("zzInclude", func(s string, a ...any) string {
+			out, err := textwire.EvaluateString(s, map[string]any{"v": "in"})
+			if err != nil {
+				return "ERR:" + err.Error()
+			}
+			return out
+		}))
+		must(textwire.RegisterStrFunc("zzLazy", func(s string, a ...any) string {
+			if err := textwire.RegisterStrFunc("zzLate"+s, func(t string, b ...any) string { return "late:" + t }); err != nil {
+				return "ERR:" + err.Error()
+			}
+			return "registered"
+		}))
+		if failure != "" {
+			return
+		}
+		var src, wantOut string
+		switch cs.Scenario {
+		case "custom-inside":
+			src, wantOut = `[{{ "{{ v.zzUp() }}".zzInclude().raw() }}]`, "[<in>]"
+		case "two-levels":
+			src, wantOut = `[{{ "{{ '{{ 21.zzTwice() }}'.zzInclude() }}".zzInclude().raw() }}]`, "[42]"
+		case "unregistered-inside":
+			src, wantOut = `[{{ "{{ v.zzNoSuch() }}".zzInclude().contains("ERR:") }}]`, "["+getCalib().True+"]"
+		case "builtin-inside":
+			src, wantOut = `[{{ "{{ v.upper() }}".zzInclude() }}]`, "[IN]"
+		case "lazy-registration":
+			src, wantOut = `[{{ "x".zzLazy() }}|{{ "t".zzLatex() }}]`, "[registered|late:t]"
+		default:
+			failure = "bad case"
+			return
+		}
+		out, err := textwire.EvaluateString(src, nil)
+		if err != nil {
+			failure = "unexpected error: " + err.Error()
+			return
+		}
+		if out != wantOut {
+			failure = fmt.Sprintf("rendered %q, expected %q", out, wantOut)
+		}
+	})
+	if pi != nil {
+		return "panic: " + pi.Value
+	}
+	return failure
+}
+
+func init() {
+	harness.RegisterReplayer("C20/reentrant", func(raw json.RawMessage) string {
+		cs, err := unJSON[reentCase](raw)
+		if err != nil {
+			return "bad case: " + err.Error()
+		}
+		return c20Reentrant(harness.New(nopTB{}, "C20", "replay", ""), cs)
+	})
+}
+
+func TestC20_Reentrant(t *testing.T) {
+	c := harness.New(t, "C20", "reentrant",
+		"custom functions whose body itself uses the library: a helper that renders a template string which calls another custom function (one and two levels deep), a built-in, or an unregistered name (the error must come back, not a deadlock), and a function that registers another function when first called. The render must return (a hang is a violation, detected by the watchdog) with the expected text. Exhaustive over five scenarios. Non-trivial: all. Distinct by construction.")
+	defer c.Finish()
+	for _, sc := range []string{"custom-inside", "two-levels", "unregistered-inside", "builtin-inside", "lazy-registration"} {
+		cs := reentCase{Scenario: sc}
+		c.CaseEnum(true, "scenario:"+sc)
+		c.Sample(cs)
+		if f := c20Reentrant(c, cs); f != "" {
+			c.Fail(t, kindOf(f), cs, "the render returns the expected text", f, f)
+		}
+	}
+	textwire.VerifReset()
+	c.ExhaustivePart("5 scenarios")
+}
